@@ -7,7 +7,9 @@
 (* Written to be bound to the code: one action per step of the             *)
 (* implementation at which a stop can make a difference.                   *)
 (*                                                                         *)
-(*   Start        a fresh process is launched with (target, spec, savefreq)*)
+(*   Start        a fresh process is launched with (target, spec, savefreq) *)
+(*                or run() is called AGAIN on the same paused / finished    *)
+(*                BatchSimulation object (fresh = FALSE: memory is kept)    *)
 (*   LoadAll      BatchSimulation.load_results(): every simulation adopts  *)
 (*                its own record from the file, if the file parses         *)
 (*   ComputeMin   min_current_trial                                        *)
@@ -35,6 +37,8 @@ CONSTANTS Sims,         \* simulations that can be in a specification
           Foreign,      \* a simulation with other inputs whose record may sit in the file
           MaxTarget, SaveFreqs, Compressed, AtomicSave,
           MaxRuns, MaxKills, MaxInterrupts,
+          RepairPartial,\* TRUE: a trial starts by discarding the entries a previously
+                        \* interrupted trial left beyond n_runs (the fix); FALSE: the snapshot
           Planned       \* TRUE: every process run carries one fault plan chosen
                         \* at Start (used to generate behaviours for replay)
 
@@ -59,6 +63,7 @@ VARIABLES
   lastGood,  \* content of the last completed save: sim -> record
   lastTarget, lastSpec,
   outcome,   \* how the last process ended: "none","done","paused","killed","error"
+  freshRun,  \* TRUE iff the current run started in a fresh process
   \* ----- replay generation only (hidden by the VIEW) ------
   nsteps,    \* trial micro-steps executed by this process
   nsaves,    \* save_json calls begun by this process
@@ -67,7 +72,7 @@ VARIABLES
 
 core  == <<disk, tmp, pc, mem, spec, target, saveFreq, iTrial, cursor, pending,
            snapshot, retrying, twice, runNo, kills, interrupts, lastGood,
-           lastTarget, lastSpec, outcome>>
+           lastTarget, lastSpec, outcome, freshRun>>
 vars  == <<core, nsteps, nsaves, plan, hist>>
 view  == core
 
@@ -112,7 +117,7 @@ Init ==
   /\ retrying = FALSE /\ twice = FALSE
   /\ runNo = 0 /\ kills = 0 /\ interrupts = 0
   /\ lastGood = NoData /\ lastTarget = 0 /\ lastSpec = {}
-  /\ outcome = "none"
+  /\ outcome = "none" /\ freshRun = TRUE
   /\ nsteps = 0 /\ nsaves = 0 /\ plan = NoPlan
   /\ hist = <<[initial_disk |-> disk]>>
 
@@ -122,17 +127,22 @@ EndRecord(o, d, m) == [end |-> o, disk |-> d, mem |-> m]
 (***************************************************************************)
 (* Launching a process: same or grown specification, same or larger target *)
 (***************************************************************************)
-Start(t, sp, sf, pl) ==
+Start(t, sp, sf, pl, fresh) ==
   /\ pc = "idle" /\ runNo < MaxRuns
   /\ t >= lastTarget /\ t >= 1 /\ lastSpec \subseteq sp /\ sp # {}
+  /\ IF fresh
+     THEN mem' = [s \in sp |-> EmptyRec]
+     ELSE \* same object: only after run() returned (paused or done), same
+          \* simulations and save frequency, memory as the last run left it
+          /\ outcome \in {"paused", "done"} /\ sp = spec /\ sf = saveFreq
+          /\ mem' = mem
   /\ pc' = "load" /\ spec' = sp /\ target' = t /\ saveFreq' = sf
-  /\ mem' = [s \in sp |-> EmptyRec]
   /\ runNo' = runNo + 1 /\ lastTarget' = t /\ lastSpec' = sp
   /\ iTrial' = 0 /\ cursor' = 0 /\ pending' = 0 /\ snapshot' = NoData
   /\ retrying' = FALSE /\ twice' = FALSE /\ nsteps' = 0 /\ nsaves' = 0
-  /\ outcome' = "none" /\ plan' = pl
+  /\ outcome' = "none" /\ plan' = pl /\ freshRun' = fresh
   /\ hist' = Append(hist, [start |-> runNo + 1, target |-> t, spec |-> sp,
-                           savefreq |-> sf, plan |-> pl])
+                           savefreq |-> sf, plan |-> pl, fresh |-> fresh])
   /\ UNCHANGED <<disk, tmp, kills, interrupts, lastGood>>
 
 (***************************************************************************)
@@ -148,13 +158,15 @@ LoadAll ==
   /\ IF disk.kind = "torn" /\ Compressed
      THEN /\ pc' = "idle" /\ outcome' = "error" /\ UNCHANGED mem
           /\ hist' = Append(hist, EndRecord("error", disk, mem))
-     ELSE /\ mem' = [s \in spec |->
+     ELSE \* a simulation whose record is not found keeps what it has in
+          \* memory (nothing in a fresh process)
+          /\ mem' = [s \in spec |->
                        IF disk.kind = "valid" /\ s \in DOMAIN disk.data
-                       THEN disk.data[s] ELSE EmptyRec]
+                       THEN disk.data[s] ELSE mem[s]]
           /\ pc' = "min" /\ UNCHANGED <<outcome, hist>>
   /\ UNCHANGED <<disk, tmp, spec, target, saveFreq, iTrial, cursor, pending,
                  snapshot, retrying, twice, runNo, kills, interrupts,
-                 lastGood, lastTarget, lastSpec, nsteps, nsaves, plan>>
+                 lastGood, lastTarget, lastSpec, freshRun, nsteps, nsaves, plan>>
 
 MinN == LET S == { mem[s].n : s \in spec } IN CHOOSE m \in S : \A x \in S : m <= x
 
@@ -172,7 +184,7 @@ ComputeMin ==
      ELSE /\ pc' = "ee" /\ cursor' = NextCursorIn(mem, 1) /\ UNCHANGED <<outcome, hist>>
   /\ UNCHANGED <<disk, tmp, mem, spec, target, saveFreq, pending, snapshot,
                  retrying, twice, runNo, kills, interrupts, lastGood,
-                 lastTarget, lastSpec, nsteps, nsaves, plan>>
+                 lastTarget, lastSpec, freshRun, nsteps, nsaves, plan>>
 
 (***************************************************************************)
 (* One trial of simulation SpecSeq[cursor]: three appends and an increment *)
@@ -182,12 +194,17 @@ TrialId == <<runNo, Cur, mem[Cur].n + 1>>
 
 TrialUnchanged == UNCHANGED <<disk, tmp, spec, target, saveFreq, iTrial, pending,
                               snapshot, retrying, twice, runNo, kills,
-                              interrupts, lastGood, lastTarget, lastSpec, nsaves,
+                              interrupts, lastGood, lastTarget, lastSpec, freshRun, nsaves,
                               outcome, plan, hist>>
 
+Trunc(q, n) == IF Len(q) > n THEN SubSeq(q, 1, n) ELSE q
 StepEE ==
   /\ pc = "ee" /\ cursor > 0
-  /\ mem' = [mem EXCEPT ![Cur].ee = Append(@, TrialId)]
+  /\ LET n == mem[Cur].n
+         r == IF RepairPartial
+              THEN [mem[Cur] EXCEPT !.ee = Trunc(@, n), !.succ = Trunc(@, n), !.cs = Trunc(@, n)]
+              ELSE mem[Cur]
+     IN mem' = [mem EXCEPT ![Cur] = [r EXCEPT !.ee = Append(@, TrialId)]]
   /\ pc' = "succ" /\ nsteps' = nsteps + 1
   /\ UNCHANGED cursor /\ TrialUnchanged
 StepSucc ==
@@ -220,7 +237,7 @@ IterEnd ==
         /\ pc' = IF p1 + p2 > 0 THEN "save" ELSE "advance"
   /\ UNCHANGED <<disk, tmp, mem, spec, target, saveFreq, iTrial, cursor, snapshot,
                  retrying, twice, runNo, kills, interrupts, lastGood,
-                 lastTarget, lastSpec, nsteps, nsaves, outcome, plan, hist>>
+                 lastTarget, lastSpec, freshRun, nsteps, nsaves, outcome, plan, hist>>
 
 Advance ==
   /\ pc = "advance"
@@ -234,7 +251,7 @@ Advance ==
                        ELSE pc' = "ee" /\ cursor' = nc
   /\ UNCHANGED <<disk, tmp, mem, spec, target, saveFreq, pending, snapshot,
                  retrying, twice, runNo, kills, interrupts, lastGood,
-                 lastTarget, lastSpec, nsteps, nsaves, plan>>
+                 lastTarget, lastSpec, freshRun, nsteps, nsaves, plan>>
 
 (***************************************************************************)
 (* save_results -> _update_file -> save_json                               *)
@@ -242,7 +259,7 @@ Advance ==
 Content == [s \in spec |-> mem[s]]
 
 SaveUnchanged == UNCHANGED <<mem, spec, target, saveFreq, iTrial, cursor, runNo,
-                             kills, interrupts, lastTarget, lastSpec, nsteps,
+                             kills, interrupts, lastTarget, lastSpec, freshRun, nsteps,
                              outcome, plan, hist>>
 
 \* _update_file: "if not os.path.isfile(output_file): self.save_file()"
@@ -313,7 +330,7 @@ Saved ==
           /\ UNCHANGED <<retrying, outcome, hist>>
   /\ UNCHANGED <<disk, tmp, mem, spec, target, saveFreq, iTrial, cursor, snapshot,
                  twice, runNo, kills, interrupts, lastGood, lastTarget,
-                 lastSpec, nsteps, nsaves, plan>>
+                 lastSpec, freshRun, nsteps, nsaves, plan>>
 
 InSave == pc \in {"save", "begin", "open", "write", "close", "rename", "written", "saved"}
 
@@ -332,7 +349,7 @@ Interrupt ==
   /\ plan' = NoPlan
   /\ UNCHANGED <<disk, tmp, mem, spec, target, saveFreq, iTrial, cursor, pending,
                  snapshot, twice, runNo, kills, lastGood, lastTarget,
-                 lastSpec, nsteps, nsaves>>
+                 lastSpec, freshRun, nsteps, nsaves>>
 
 \* the process dies here and now
 Kill ==
@@ -343,11 +360,11 @@ Kill ==
   /\ plan' = NoPlan
   /\ UNCHANGED <<disk, tmp, mem, spec, target, saveFreq, iTrial, cursor, pending,
                  snapshot, twice, runNo, interrupts, lastGood, lastTarget,
-                 lastSpec, nsteps, nsaves>>
+                 lastSpec, freshRun, nsteps, nsaves>>
 
 Normal ==
   \/ \E t \in 1..MaxTarget : \E sp \in SUBSET Sims : \E sf \in SaveFreqs :
-       \E pl \in (IF Planned THEN PlanSet ELSE {NoPlan}) : Start(t, sp, sf, pl)
+       \E pl \in (IF Planned THEN PlanSet ELSE {NoPlan}) : \E fr \in BOOLEAN : Start(t, sp, sf, pl, fr)
   \/ LoadAll \/ ComputeMin
   \/ StepEE \/ StepSucc \/ StepCS \/ StepIncr
   \/ IterEnd \/ Advance
@@ -393,7 +410,11 @@ NoForeign == \A s \in DOMAIN mem : \A j \in DOMAIN mem[s].ee : mem[s].ee[j][2] =
 \*  (i) right after loading, every simulation holds exactly what the last
 \*      completed save held for it
 LoadAdoptsLastGood ==
-  pc = "min" => \A s \in spec : mem[s] = (IF s \in DOMAIN lastGood THEN lastGood[s] ELSE EmptyRec)
+  pc = "min" => \A s \in spec :
+     LET g == IF s \in DOMAIN lastGood THEN lastGood[s] ELSE EmptyRec IN
+     IF freshRun THEN mem[s] = g
+     ELSE \* same object: memory may hold more than the file, never less
+          IsPrefix(g.ee, mem[s].ee) /\ IsPrefix(g.succ, mem[s].succ) /\ IsPrefix(g.cs, mem[s].cs)
 \*  (ii) completed saves only ever extend one another
 PrefixKept ==
   [][\A s \in DOMAIN lastGood : s \in DOMAIN lastGood' /\ IsPrefix(lastGood[s].ee, lastGood'[s].ee)]_vars
